@@ -464,4 +464,39 @@ example : CharonV.Fr.lagrangeAt0 ([1, 3].map fun j =>
     (j, CharonV.Fr.sum ([[3, 2], [1, 1]].map fun cs => CharonV.Fr.evalPoly cs j)))
     = 4 := by decide +kernel
 
+/-! receive side of `frostp2p.go`: node 1 of 3 (t = 2, one validator). -/
+
+private def cEx : CharonV.FrostP2P.Cfg := { n := 3, t := 2, nv := 1, self := 1 }
+
+open CharonV.FrostP2P in
+/-- node 2's round-1 cast delivered three times, then node 3's: one of each is queued. -/
+example : (runCb (bcastCb cEx (some 2)) {} [genCast1 cEx 2, genCast1 cEx 2, genCast1 cEx 2, genCast1 cEx 3]).queue
+    = [genCast1 cEx 2, genCast1 cEx 3] := by decide
+
+open CharonV.FrostP2P in
+/-- the loop then returns one cast per node and one share message per other node. -/
+example : (match collect1 3 [(true, genCast1 cEx 1), (true, genCast1 cEx 2), (false, genP2P cEx 3),
+      (false, genP2P cEx 2), (true, genCast1 cEx 3)] [] [] with
+    | .done cs ps => (cs.map (·.sender), ps.map (·.sender)) | _ => ([], [])) = ([1, 2, 3], [3, 2]) := by
+  decide
+
+open CharonV.FrostP2P in
+/-- forged share messages of a member (wrong target) are refused and do not block its genuine one. -/
+example : (runCb (p2pCb cEx) {} [{ sender := 2, entries := [{ key := ⟨0, 2, 3⟩ }] }, genP2P cEx 2]).queue
+    = [genP2P cEx 2] := by decide
+
+open CharonV.FrostP2P in
+/-- `Fair1.honest1` is needed: the bcast callback marks the sender before validating, so a member's
+malformed first broadcast (here: wrong source id) makes the node ignore its later valid one. -/
+example : (runCb (bcastCb cEx (some 2)) {}
+    [{ sender := 2, entries := [{ key := ⟨0, 3, 0⟩, commits := 2 }] }, genCast1 cEx 2]).queue = [] := by
+  decide
+
+open CharonV.FrostP2P in
+/-- without per-sender de-duplication counting would go wrong: three casts `{1, 2, 2}` already make
+the loop of a 3-node cluster return (this is what the callbacks' de-duplication excludes). -/
+example : (match collect1 3 [(true, genCast1 cEx 1), (false, genP2P cEx 2), (false, genP2P cEx 3),
+      (true, genCast1 cEx 2), (true, genCast1 cEx 2)] [] [] with
+    | .done cs _ => cs.map (·.sender) | _ => []) = [1, 2, 2] := by decide
+
 end Examples
